@@ -412,10 +412,18 @@ def run(ck, ctx):
         v = rr.value
         loads = [e for e in rr.effects if e.kind == "io" and (e.data.get("callee") or "").endswith(".load")]
         okr = False
-        if v is not None and v.op == "Obj" and v.attr[0] == "NssConfig" and len(loads) == 1:
+        if v is not None and v.op == "Obj" and v.attr[0] == "NssConfig":
             cpos, ckw = (v.extra or {}).get("ctor_args", ((), {}))
             star = ckw.get("**")
-            okr = not cpos and set(ckw) == {"**"} and star is not None and I.res(star, rr.st) is loads[0].node
+            sv = I.res(star, rr.st) if star is not None else None
+            if len(loads) == 1:
+                okr = not cpos and set(ckw) == {"**"} and sv is loads[0].node
+            if not okr and sv is not None and is_ext_call(sv, "tomllib.load", "tomllib.loads", "tomli.load", "tomli.loads"):
+                # the parsed document of the named file, whichever way it is read (load(f), loads(f.read().decode()))
+                fname = ra.get("filename") or next(iter(ra.values()), None)
+                opens = [x for x in walk([sv]) if is_ext_call(x, "builtins.open") and len(x.args) >= 2 and
+                         x.args[1] is fname]
+                okr = not cpos and set(ckw) == {"**"} and len(opens) >= 1
         ck.ob("R15.5", "config_from_toml rebuilds NssConfig(**loaded) from the whole parsed file (validators on)",
               okr, v if v is not None else (mod.relpath, cf.node.lineno, 0), "config_from_toml",
               g.show(v, 2) if v is not None else "no value")
